@@ -398,7 +398,8 @@ def rule_bits(prop, repo):
 
 
 _INT_LAYER_WORDS = {"u8", "u16", "u32", "u64", "u128", "usize", "bool", "U256", "U512", "BigInt", "Option", "Result", "Error", "mut", "const", "crate", "u256", "u512",
-                    "ark_ff", "biginteger", "core", "option", "result", "self", "Self", "N", "BitIterator", "a", "static", "cmp", "Ordering", "arith", "MulBuffer"}
+                    "ark_ff", "biginteger", "core", "option", "result", "self", "Self", "N", "BitIterator", "a", "static", "cmp", "Ordering", "arith", "MulBuffer",
+                    "as", "ops", "Index", "IndexMut", "Output", "Deref", "DerefMut", "Target", "AsRef", "AsMut", "convert", "iter", "Iterator", "Item"}
 
 
 def int_layer_policy(F):
